@@ -18,7 +18,7 @@ RULE = (
     "point or one assembly order; distinct = (n, n_chunks[, order]); non-trivial = at least one pair (n>=2)"
 )
 ASSUMPTIONS = ["thetas in the assembly workload are harness stubs with prescribed predictions plus real sparse-combo samples"]
-REQUIRED = {"partition_grid_points": {"quick": 500, "thorough": 1800}, "assemblies_checked": {"quick": 150, "thorough": 2000}, "refusals_checked": {"quick": 50, "thorough": 500}, "large_matrix_roundtrips": {"quick": 8, "thorough": 80}}
+REQUIRED = {"partition_grid_points": {"quick": 500, "thorough": 1800}, "assemblies_checked": {"quick": 150, "thorough": 2000}, "refusals_checked": {"quick": 50, "thorough": 500}, "large_matrix_roundtrips": {"quick": 8, "thorough": 80}, "cli_matrices_checked": {"quick": 6, "thorough": 50}}
 N_EXH = {"quick": 14, "thorough": 22}  # grid sizes 548 / 1900 points
 
 
@@ -203,6 +203,56 @@ def run_shard(rec, tier, seed, shard, nshards):
             for fn in files:
                 os.remove(fn)
         large_matrices(rec, tier, rng, DC, tmp, shard)
+        cli_chunks(rec, tier, rng, DC, tmp)
+
+
+def cli_chunks(rec, tier, rng, DC, tmp):
+    """calculate_distance_matrix run in-process: several chain files, several chunks; entry (i,j) must be the metric of
+    samples i and j in the order of the files on the command line (the order ThetaHolder.concat gives)"""
+    from batchie.cli import calculate_distance_matrix as cli
+    from batchie.core import ThetaHolder
+    from batchie.data import Screen, ExperimentSpace
+    from batchie.distance.mse import MSEDistance
+
+    for ci in range(1 if tier == "quick" else 4):
+        screen = Screen(**gen.realistic_screen_kwargs(rng, n_rows=(4, 12), observed="none"))
+        sp = ExperimentSpace.from_screen(screen)
+        sizes = [int(rng.integers(1, 4)) for _ in range(int(rng.integers(2, 4)))]
+        files, thetas = [], []
+        for k, sz in enumerate(sizes):
+            h = ThetaHolder(n_thetas=sz)
+            for _ in range(sz):
+                th = gen.random_sparse_combo_theta(rng, sp.n_unique_samples, max(1, sp.n_unique_treatments), scale=1.0)
+                h.add_theta(th)
+                thetas.append(th)
+            fn = os.path.join(tmp, "cli_th_%d.h5" % k)
+            h.save_h5(fn)
+            files.append(fn)
+        f_s = os.path.join(tmp, "cli_screen.h5")
+        screen.save_h5(f_s)
+        n = len(thetas)
+        n_chunks = int(rng.integers(1, 5))
+        outs = []
+        w = {"via": "cli", "chain_sizes": sizes, "n_chunks": n_chunks}
+        rec.case(("cli", tuple(sizes), n_chunks), nontrivial=True)
+        try:
+            for c in range(n_chunks):
+                o = os.path.join(tmp, "cli_d_%d.h5" % c)
+                kit.run_cli(cli.main, ["--data", f_s, "--thetas"] + files + ["--distance-metric", "MSEDistance", "--n-chunks", n_chunks, "--chunk-index", c, "--output", o])
+                outs.append(o)
+            order = [int(x) for x in rng.permutation(n_chunks)]
+            dense = DC.ChunkedDistanceMatrix.concat([DC.ChunkedDistanceMatrix.load(outs[c]) for c in order]).to_dense()
+        except Exception as e:
+            rec.violation("C07/cli/raises", "calculate_distance_matrix CLI path raised %r" % (e,), w)
+            continue
+        metric = MSEDistance()
+        loaded = Screen.load_h5(f_s)
+        ref = np.zeros((n, n))
+        for i in range(n):
+            for j in range(i):
+                ref[i, j] = ref[j, i] = metric.distance(thetas[i].predict_viability(loaded), thetas[j].predict_viability(loaded))
+        rec.count("cli_matrices_checked")
+        rec.check(dense.shape == ref.shape and kit.bytes_equal(dense, ref), "C07/cli/entry-not-metric-of-samples-in-file-order", "the matrix assembled from the command-line chunks is not metric(pred_i, pred_j) with samples numbered in the order of the --thetas files", w)
 
 
 def large_matrices(rec, tier, rng, DC, tmp, shard):
